@@ -72,6 +72,18 @@ func main() {
 			sub := rand.New(rand.NewSource(cs))
 			emit(w, runDisplacePairs(genDisplaceCase(sub, i, cs), sub))
 		}
+	case "displacevar":
+		rng := rand.New(rand.NewSource(*seed))
+		for i := 0; i < *n; i++ {
+			cs := rng.Int63()
+			if i < *start {
+				continue
+			}
+			sub := rand.New(rand.NewSource(cs))
+			for _, v := range runDisplaceVariants(genDisplaceCase(sub, i, cs), sub, 4) {
+				emit(w, v)
+			}
+		}
 	case "curry", "saveto", "filler", "postact", "methodcall":
 		rng := rand.New(rand.NewSource(*seed))
 		var lines []string
